@@ -31,6 +31,23 @@ package verify
 //@ func SNPFamilyValidateFunc
 //@   requires opts != nil
 //@   assigns[C09] nothing
+//@   ghostset vfFn = result
+//@   ghostset vfRoots = opts.RootsOfTrust
+//@   ghostset vfNow = opts.Now
+//@   ghostset vfEndorsement = opts.Endorsement
+//@   ghostset vfVmsas = ite(opts.SNP == nil, 0, opts.SNP.ExpectedLaunchVMSAs)
+//@   ensures result != nil
+
+//@ func SNPValidateFunc
+//@   requires opts != nil
+//@   assigns[C09] nothing
+//@   ghostset vfFn = result
+//@   ghostset vfRoots = opts.RootsOfTrust
+//@   ghostset vfNow = opts.Now
+//@   ghostset vfEndorsement = opts.Endorsement
+//@   ghostset vfVmsas = ite(opts.SNP == nil, 0, opts.SNP.ExpectedLaunchVMSAs)
+//@   ensures result != nil
+//@   ensures[C01,C02] vfFn == result && vfRoots == opts.RootsOfTrust && vfNow == opts.Now && vfEndorsement == opts.Endorsement
 
 //@ func SNPFamilyValidateFunc$1
 //@   requires opts != nil
